@@ -21,6 +21,10 @@ CONSTANTS Classes,     \* sequence of label classes; a class is a sequence of sp
           DefKinds,    \* sequence of definition layouts: "one" | "title" | "nextline" (destination and title
                        \* on their own lines) | "multiline" (title over two lines) | "bsline" (a backslash
                        \* before the line break inside the title) | "lfref" (a line-feed character reference in the title)
+          DDefKinds,   \* layouts of definitions inside the document D: "one", and definitions inside containers -
+                       \* "quoted" (in a block quote), "quotedtitle" (title on a second quoted line), "lazytitle" /
+                       \* "lazydest" (title / destination on a lazy continuation line without the quote marker),
+                       \* "listed" (in a list item, title on an indented line), "listlazy" (title on a lazy line)
           MaxSpell     \* spellings per class used by the exhaustive configurations
 
 VARIABLES R, D, hist, phase,
@@ -55,7 +59,7 @@ AddD == /\ phase = "D" /\ Len(D) < MaxD
         /\ \E c \in DOMAIN Classes : \E s \in 1..MaxSpell : s <= Len(Classes[c]) /\
               \/ D' = Append(D, Item("use", c, s, "link"))
               \/ D' = Append(D, Item("use", c, s, "image"))
-              \/ D' = Append(D, Item("def", c, s, "one"))
+              \/ \E kind \in DOMAIN DDefKinds : D' = Append(D, Item("def", c, s, DDefKinds[kind]))
         /\ UNCHANGED <<R, hist, phase>>
 
 Step == (AddR \/ Switch \/ AddD)
